@@ -1,0 +1,32 @@
+//! Verification hook (compiled only with `--cfg ragc_verif`): a facade over the `zstd` crate used by
+//! `collection.rs` that can cap the compression level. The seven level-18/19 streaming encodes of the
+//! collection metadata cost ~1.2 s per archive regardless of size; with the cap an archive costs
+//! milliseconds, which is what makes exhaustive exploration of many archives possible. Inactive
+//! (pass-through) unless a cap is set through `set_level_cap` or the environment variable
+//! `RAGC_VERIF_ZSTD_CAP`.
+pub use ::zstd::*;
+use std::sync::atomic::{AtomicI32, Ordering};
+
+static CAP: AtomicI32 = AtomicI32::new(i32::MIN);
+
+/// Set the level cap (None = pass-through).
+pub fn set_level_cap(cap: Option<i32>) {
+    CAP.store(cap.unwrap_or(i32::MAX), Ordering::SeqCst);
+}
+
+fn cap() -> i32 {
+    let c = CAP.load(Ordering::Relaxed);
+    if c != i32::MIN {
+        return c;
+    }
+    let v = std::env::var("RAGC_VERIF_ZSTD_CAP")
+        .ok()
+        .and_then(|s| s.parse().ok())
+        .unwrap_or(i32::MAX);
+    CAP.store(v, Ordering::Relaxed);
+    v
+}
+
+pub fn encode_all<R: std::io::Read>(source: R, level: i32) -> std::io::Result<Vec<u8>> {
+    ::zstd::encode_all(source, level.min(cap()))
+}
